@@ -52,9 +52,9 @@ ASSUMPTIONS = [
     "cube prints for that number (ties allowed), compared against the exact "
     "decimal written into the DX / PQR text; applied to origin, spacings, "
     "atom coordinates and values alike",
-    "the first two fields of a cube atom line (atomic number, charge) are not "
-    "constrained by the property and only recorded as events; atoms are "
-    "matched by coordinates, any order",
+    "atoms are matched by coordinates, any order; the first field of a cube "
+    "atom line must be the atom's PQR serial or its atomic number (it says "
+    "which atom is listed), the second (charge) is only recorded",
     "PQR atoms keep to field widths that leave a blank between fixed "
     "columns and carry no insertion codes (reading those is the PQR "
     "reader's property, not this one)",
@@ -107,7 +107,9 @@ THOROUGH_SPACINGS = QUICK_SPACINGS + ["1.25", "fine"]
 
 QUICK_PATTERNS = ["mag", "index", "round", "spelled"]
 EXTRA_PATTERNS = ["extreme", "ulp", "plain"]
-STYLES = ["apbs", "bare"]
+# "tailless": the data section ends the file - no attribute / component
+# trailer and no newline after the last value
+STYLES = ["apbs", "bare", "tailless"]
 
 # (record, serial, name, resname, chain, resseq, x, y, z, charge, radius)
 ATOMS = [
@@ -220,6 +222,8 @@ def dx_text(shape, origin, deltas, values, style):
         row = values[a:a + 3]
         # APBS prints "%12.6e " per value, i.e. a blank before the newline
         out.append("".join(v + " " for v in row) if apbs else " ".join(row))
+    if style == "tailless":
+        return "\n".join(out)
     out.append('attribute "dep" string "positions"')
     out.append('object "regular positions regular connections" class field')
     out.append('component "positions" value 1')
@@ -527,6 +531,19 @@ def check_cube(text, shape, origin, deltas, pattern, natoms):
         first = {("serial" if cube["atoms"][g]["number"]
                   == str(want_atoms[w][1]) else "other") for w, g in match}
         ev.append("atom-field1=" + "/".join(sorted(first)))
+        # the first field says which atom the record lists: the PQR serial
+        # (what pdb2pqr writes) or the element's atomic number (the cube
+        # convention) - a number that is neither lists no atom of the PQR
+        for w, g in match:
+            num = cube["atoms"][g]["number"]
+            elem = {"N": "7", "C": "6", "H": "1", "O": "8"}.get(
+                want_atoms[w][2][0])
+            if num not in (str(want_atoms[w][1]), elem):
+                viol.append(("C18/atoms/first-field-names-no-pqr-atom",
+                             {"cube_field": num,
+                              "pqr_serial": want_atoms[w][1],
+                              "atom": want_atoms[w][2]}))
+                break
         chg = {("pqr-charge" if same_printed(
             cube["atoms"][g]["charge"], Decimal(want_atoms[w][9]))
             else "other") for w, g in match}
